@@ -1,4 +1,4 @@
-SPECIFICATION Spec
+SPECIFICATION SpecUntimed
 CONSTANTS
   Producers = {"p1", "p2"}
   Topics = {"t1", "t2#ephemeral"}
